@@ -36,7 +36,7 @@ def key(r, hostile=0.3):
 
 
 SMALL_SIZES = [0, 1, 2, 3, 7, 8, 9, 15, 16, 17, 31, 32, 33, 63, 64, 65, 100, 255, 256]
-EDGE_SIZES = [1023, 1024, 1025, 8191, 8192, 8193, 16383, 16384, 16385]
+EDGE_SIZES = [1023, 1024, 1025, 8191, 8192, 8193, 16383, 16384, 16385, 20000, 70001]
 BIG_SIZES = [MMAP - 1, MMAP, MMAP + 1]
 
 
@@ -79,7 +79,10 @@ def chunking(r, d):
         h = n // 2
         cs = [d[:h], d[h:]]
     else:
-        cs = [d]
+        # a short header, then everything else in one piece (and, for larger data, a short trailer): small and large
+        # writes on one handle - any buffering of the small ones must not let the large ones overtake them
+        h = r.pick([1, 7, 16, 100])
+        cs = [d[:h], d[h:]] if n <= 2 * h + 8 else [d[:h], d[h:n - 8], d[n - 8:]]
     if r.chance(0.3):
         cs.insert(r.randrange(len(cs) + 1), b"")
     return cs
